@@ -58,6 +58,33 @@ def function_defs(fn: ast.AST) -> Dict[str, List[ast.AST]]:
     return defs
 
 
+def origins(expr: ast.AST, defs: Dict[str, List[ast.AST]], depth: int = 6) -> List[ast.AST]:
+    """the non-Name expressions a value can come from: a Name is followed through all of its (flow-insensitive)
+    definitions and plain aliases; anything else is its own origin.  Used to identify a variable by its *role*
+    (what it is bound to) instead of by its spelling."""
+    out: List[ast.AST] = []
+    seen: Set[str] = set()
+
+    def go(e, d):
+        if isinstance(e, ast.Name) and d > 0:
+            if e.id in seen:
+                return
+            seen.add(e.id)
+            ds = defs.get(e.id, [])
+            if not ds:
+                out.append(e)
+            for v in ds:
+                go(v, d - 1)
+        else:
+            out.append(e)
+    go(expr, depth)
+    return out
+
+
+def origin_texts(expr: ast.AST, defs, depth: int = 6) -> Set[str]:
+    return {ast.unparse(o) for o in origins(expr, defs, depth)}
+
+
 def free_names_of_def(d: ast.AST) -> Set[str]:
     """names a nested def / lambda reads from its environment (approximation: all loaded names minus
     its own parameters and local stores)"""
